@@ -13,4 +13,9 @@ OBLS = [
         unwind=11, defines=('VERIF_L=9',), timeout=1800, bounds='program length <= 9, 4 faces'),
     Obl('C10.1s', 'C10/logic.cc', 'obl_c10_stack_laws', 'A', 'LogicStack push/pop/and/or/not laws from an arbitrary stack of depth <= 30',
         unwind=34, defines=('VERIF_L=7',), timeout=600),
+    Obl('C10.2', 'C10/logic.cc', 'obl_c10_infix', 'A', 'InfixEvaluator == reference semantics for every well-formed explicit-infix string of length <= 11 '
+        '(one operator kind per parenthesis level, nesting <= 3, negated faces), all senses; includes the short-circuit skipping',
+        unwind=14, defines=('VERIF_LI=11',), timeout=900, bounds='string length <= 11, nesting <= 3, 4 faces'),
+    Obl('C10.2/L13', 'C10/logic.cc', 'obl_c10_infix', 'A', 'same, strings of length <= 13', tier='thorough',
+        unwind=16, defines=('VERIF_LI=13',), timeout=3000, bounds='string length <= 13, nesting <= 3, 4 faces'),
 ]
